@@ -70,6 +70,12 @@ CHECKS["C03"] = dict(engine="filter", design="4 C03", technique="TLA+ model chec
          "before their full citation or appended). Every emitted list is rebuilt from real citation objects and filtered once and twice; get_citations runs on citation-dense generated "
          "documents with both merge histories; TLC judges order / uniqueness / non-overlap / non-references kept / idempotence and checks model = code on every one."),
    note="Trusted: TLC + Json; the list generation constraints state what extraction can produce (they were derived from the code and are what TLC counterexamples are concretised against).")
+CHECKS["C18"] = dict(engine="editions", design="4 C18", technique="TLA+ model checking of Editions.tla (get_year / includes_year / guess_edition) + extraction over every ambiguous reporter string x boundary years x year positions + TLC trace validation",
+   text=("Editions.tla transcribes get_year, Edition.includes_year, guess_edition and the ambiguity filter; TLC checks YearSound and GuessSound for every candidate configuration "
+         "(<= 2 exact and <= 2 variation editions, every open/closed date range) and every year on both sides of every boundary, on both year paths. Every ambiguous reporter string of the "
+         "installed reporters-db (thorough: every string) x boundary years x six year positions is extracted with and without remove_ambiguous; TLC judges year range / year text / guess "
+         "membership / single candidate / needs-year / only-candidate-publishing / disambiguation = filter of the default run, and recomputes every guess with the model."),
+   note="Trusted: TLC + Json; candidate editions and their date ranges are read from the citation's own Edition objects; 'own year' = not a parallel citation (same full-span start as the preceding full case citation).")
 NA_REASON = "check not built yet (work in progress; see DESIGN.md section 10 build order)"
 checks = []
 for p in props:
@@ -99,6 +105,8 @@ m = {"version": 1,
               "serves_properties": ["C15"], "kind_free_text": "TLA+ spec, TLC model checking, history replay across processes / hash seeds / threads, TLC trace validation"},
              {"name": "filter", "path": "spec/Filter.tla spec/MC_Filter.tla spec/Trace_Filter.tla harness/chk_filter.py harness/drv_extract.py harness/gendocs.py",
               "serves_properties": ["C03"], "kind_free_text": "TLA+ spec, TLC model checking, list replay, TLC trace validation"},
+             {"name": "editions", "path": "spec/Editions.tla spec/MC_Editions.tla spec/Trace_Editions.tla harness/chk_editions.py harness/drv_extract.py",
+              "serves_properties": ["C18"], "kind_free_text": "TLA+ spec, TLC model checking, database-exhaustive extraction, TLC trace validation"},
              {"name": "annotate", "path": "spec/Annotate.tla spec/SpanUpdater.tla spec/MC_Annotate.tla spec/MC_SpanUpdater.tla spec/Trace_Annotate.tla spec/Trace_SpanUpdater.tla harness/chk_annotate.py harness/drv_annotate.py",
               "serves_properties": ["C09", "C10", "C11"], "kind_free_text": "TLA+ spec, TLC model checking, configuration replay, TLC trace validation"}],
  "checks": checks,
